@@ -239,6 +239,40 @@ def run_agg_case(ctx, case):
     except Exception as e:
         ctx.check("agg.reuse.same-answer", False, "aggregate|raises-on-reuse", case,
                   {"exc": repr(e)})
+    # the caller regroups: the index array is edited in place between its ends (first
+    # value, last value and length stay), valid and not: the answer is the one a new
+    # array holding the same numbers gets
+    if len(ii) >= 4:
+        prg = np.random.default_rng(digest(idx, op) % 2 ** 31)
+        for how in ("merged", "resplit", "decreasing"):
+            if how == "merged":
+                ii[1:-1] = ii[0]
+            elif how == "resplit":
+                ii[1:-1] = np.sort(prg.integers(int(ii[0]), int(ii[-1]) + 1,
+                                                size=len(ii) - 2)).astype(np.int32)
+            else:
+                ii[1:-1] = np.sort(prg.integers(int(ii[0]), int(ii[0]) + 3,
+                                                size=len(ii) - 2))[::-1].astype(np.int32) + 1
+            ctx.tag("reuse-array:index-edited-between-its-ends")
+            ctx.api("aggregate", 2)
+
+            def _run(ix):
+                try:
+                    return np.asarray(du.aggregate(ix, vv, operator=op, maxnan=maxnan),
+                                      dtype=float)
+                except ValueError as e_:
+                    return "ValueError"
+            a_same, a_new = _run(ii), _run(ii.copy())
+            okr = (isinstance(a_same, str) and isinstance(a_new, str)) or \
+                (not isinstance(a_same, str) and not isinstance(a_new, str) and
+                 same_result(a_same, a_new))
+            ctx.check("agg.reuse.index-edited", okr,
+                      "aggregate|answer-for-an-index-array-edited-in-place-differs-from-a-new-array",
+                      case, lambda: {"edit": how, "index_now": ii[:10],
+                                     "same_object": a_same if isinstance(a_same, str)
+                                     else a_same[:6],
+                                     "new_object": a_new if isinstance(a_new, str)
+                                     else a_new[:6]})
     # the same numbers in another memory layout / container / index width
     prng = np.random.default_rng(digest(idx, v, op) % 2 ** 32)
     ctx.presentations("aggregate", lambda i_, v_: du.aggregate(i_, v_, operator=op,
